@@ -487,6 +487,7 @@ func (db *Backend) ListBucketVersions(
 	var truncated = false
 	var first = true
 	var cnt int64 = 0
+	var last *bucketData
 
 	// FIXME: The S3 docs have this to say on the topic of result ordering:
 	//   "The following request returns objects in the order they were stored,
@@ -550,6 +551,7 @@ func (db *Backend) ListBucketVersions(
 				result.Versions = append(result.Versions, resultVer)
 			}
 
+			last = version
 			cnt++
 			if page.MaxKeys > 0 && cnt >= page.MaxKeys {
 				truncated = versions.Next()
@@ -560,6 +562,11 @@ func (db *Backend) ListBucketVersions(
 
 done:
 	result.IsTruncated = truncated || iter.Next()
+	if result.IsTruncated && last != nil {
+		// The next page starts after the last version listed here:
+		result.NextKeyMarker = last.name
+		result.NextVersionIDMarker = last.versionID
+	}
 
 	return result, nil
 }
